@@ -17,7 +17,16 @@ pub(crate) fn mk_state(mem: M, max: u16) -> VringState<M> {
     VringState { queue: Queue::new(max).unwrap(), kick: None, call: None, err: None, enabled: false, mem }
 }
 pub(crate) fn mk_vring_mutex(mem: M, max: u16) -> VringMutex<M> {
-    VringMutex { state: Arc::new(Mutex::new(mk_state(mem, max))) }
+    let v = VringMutex { state: Arc::new(Mutex::new(mk_state(mem, max))) };
+    {
+        // re-assign the plain fields in place: the move into the Arc is a memcpy for CBMC, after which it no
+        // longer treats them as constants (then e.g. Queue::try_set_size's error path is explored everywhere)
+        let mut g = v.state.lock().unwrap();
+        let fresh = Queue::new(max).unwrap();
+        g.queue = fresh;
+        g.enabled = false;
+    }
+    v
 }
 pub(crate) fn mk_vring_rwlock(mem: M, max: u16) -> VringRwLock<M> {
     VringRwLock { state: Arc::new(RwLock::new(mk_state(mem, max))) }
@@ -55,7 +64,7 @@ fn file(fd: RawFdT) -> File {
     unsafe { File::from_raw_fd(fd) }
 }
 
-// @harness props=C09,C14 tier=quick bound="VringState set_kick/set_call/set_err: replace / clear in any order (3 symbolic steps over 3 slots), signal_used_queue after each" stubs="EventNotifier::notify, close/OwnedFd::drop (ghost descriptor table)"
+// @harness props=C09,C14 tier=quick reach=off bound="VringState set_kick/set_call/set_err: replace / clear in any order (3 symbolic steps over 3 slots), signal_used_queue after each" stubs="EventNotifier::notify, close/OwnedFd::drop (ghost descriptor table)"
 v_proof! { fn c09_u_vring_fds() {
     let mem = ManuallyDrop::new(GuestMemoryAtomic::new(GuestMemoryMmap::<()>::new()));
     let mut st = ManuallyDrop::new(mk_state(dup_mem(&mem), 256));
